@@ -65,10 +65,12 @@ func (n Time) buildString(b *strings.Builder) {
 		// in two parts.
 		nano := time.Time(n).UnixNano()
 		secs := nano / int64(time.Second)
-		if 0 < nano {
+		if 0 <= nano {
 			_, _ = fmt.Fprintf(b, "%d.%09d", secs, nano-(secs*int64(time.Second)))
 		} else {
-			_, _ = fmt.Fprintf(b, "%d.%09d", secs, -nano+(secs*int64(time.Second)))
+			// The sign is written separately since the integer part of
+			// -0.5 is zero.
+			_, _ = fmt.Fprintf(b, "-%d.%09d", -secs, -nano+(secs*int64(time.Second)))
 		}
 	default:
 		b.WriteString(`"`)
